@@ -213,7 +213,7 @@ func c16Interleavings(r *run.Run) {
 			for g, o := range sel {
 				got := results[g] + " " + fmt.Sprintf("%x", writers[g].buf.Bytes())
 				if got != want[g] {
-					c.Fail("C16.interleaving", kind+" "+sel[0].Name+" || "+sel[1].Name, "goroutine %d (%s) produced different output than when run alone, schedule %v (each number = which goroutine ran until its next Write call)", g, o.Name, schedule)
+					c.FailObserved("C16.interleaving", kind+" "+sel[0].Name+" || "+sel[1].Name, "goroutine %d (%s) produced different output than when run alone, schedule %v (each number = which goroutine ran until its next Write call)", g, o.Name, schedule)
 				}
 			}
 			c.Outcome(kind, sel[0].Name, sel[1].Name, fmt.Sprint(schedule))
